@@ -313,6 +313,11 @@ def r17_8(ctx):
             for nd in ast.walk(e):
                 if isinstance(nd, ast.Attribute) and norm(nd) == f"{fr}.f_code.co_filename":
                     roots.append(nd)
+                if isinstance(nd, ast.Attribute) and nd.attr == "co_filename" and isinstance(nd.value, ast.Name):
+                    # code = frame.f_code; code.co_filename
+                    cdefs = [a.value for a in ast.walk(lp) if isinstance(a, ast.Assign) and any(isinstance(t, ast.Name) and t.id == nd.value.id for t in a.targets)]
+                    if len(cdefs) == 1 and norm(cdefs[0]) == f"{fr}.f_code":
+                        roots.append(nd)
                 if isinstance(nd, ast.Name) and nd.id not in seen:
                     seen.add(nd.id)
                     for a in ast.walk(lp):
